@@ -707,12 +707,19 @@ fn expand_brace_range(tokens: &mut types::Tokens) {
         if start > end {
             while n >= end {
                 result.push(format!("{}{}{}", head, n, tail));
-                n -= incr;
+                // the sequence ends at the bound of the number type too
+                n = match n.checked_sub(incr) {
+                    Some(x) => x,
+                    None => break,
+                };
             }
         } else {
             while n <= end {
                 result.push(format!("{}{}{}", head, n, tail));
-                n += incr;
+                n = match n.checked_add(incr) {
+                    Some(x) => x,
+                    None => break,
+                };
             }
         }
 
